@@ -25,6 +25,9 @@ use std::io::Write;
 use std::sync::Arc;
 use std::time::{Duration, Instant};
 
+/// CPU seconds granted to one case re-run alone after a watchdog firing (cases need milliseconds)
+pub const CPU_LIMIT_ALONE: u64 = 120;
+
 pub const FAMILIES: &[&str] = &["rule", "transform", "request", "body", "analysis", "stack", "misc"];
 
 // ---------------------------------------------------------------------------------------------
@@ -784,7 +787,7 @@ pub fn run(ctx: &Ctx, args: &Args) -> i32 {
     let dir = ctx.verif_dir.join("target").join("c07");
     let _ = std::fs::create_dir_all(&dir);
     let nshards = ctx.jobs.max(1);
-    let watchdog = Duration::from_secs(ctx.tier.pick(900, 5400));
+    let watchdog = Duration::from_secs(ctx.tier.pick(600, 5400));
 
     let mut children = Vec::new();
     for shard in 0..nshards {
@@ -825,8 +828,36 @@ pub fn run(ctx: &Ctx, args: &Args) -> i32 {
         let text = std::fs::read_to_string(&log).unwrap_or_default();
         match status {
             None => {
+                // the wall clock only triggers the triage; the verdict is taken on CPU time (a load-independent
+                // clock): the open case is re-run alone under `ulimit -t`
                 let open = last_open_case(&text);
-                report.inconclusive(format!("worker {shard} exceeded the wall-clock watchdog ({}s) while running {:?}; not a verdict", watchdog.as_secs(), open));
+                let mut decided = false;
+                if let Some((family, seed)) = &open {
+                    let alone_log = dir.join(format!("hang-{family}-{seed}.log"));
+                    let cmd = format!(
+                        "ulimit -t {CPU_LIMIT_ALONE}; exec '{}' C07 --tier {} --seed {} --verif-dir '{}' --child 0 1 '{}' --only {family} {seed}",
+                        exe.to_string_lossy(),
+                        ctx.tier.name(),
+                        ctx.seed,
+                        ctx.verif_dir.to_string_lossy(),
+                        alone_log.to_string_lossy()
+                    );
+                    if let Ok(o) = std::process::Command::new("sh").args(["-c", &cmd]).output() {
+                        use std::os::unix::process::ExitStatusExt;
+                        let finished = std::fs::read_to_string(&alone_log).unwrap_or_default().contains(&format!("END {family} {seed}"));
+                        if !finished && matches!(o.status.signal(), Some(24) | Some(9)) {
+                            report.violation(
+                                "non-termination",
+                                format!("case family={family} seed={seed} does not terminate: run alone it was still running after {CPU_LIMIT_ALONE} s of CPU time (a case of this family needs milliseconds)"),
+                                json!({"family": family, "seed": seed}),
+                            );
+                            decided = true;
+                        }
+                    }
+                }
+                if !decided {
+                    report.inconclusive(format!("worker {shard} exceeded the wall-clock watchdog ({}s) while running {:?}; the case terminates when run alone under the CPU-time limit: no verdict", watchdog.as_secs(), open));
+                }
             }
             Some(s) if !s.success() || !text.contains("SUMMARY ") => {
                 // the worker died: attribute to the open case and confirm alone
